@@ -148,6 +148,10 @@ func (s *st) storeDump() []string {
 		}
 		all, _ := s.sess.AllPackets(session.Outgoing)
 		for _, p := range all {
+			if p == nil {
+				out = append(out, "NIL-ENTRY") // a store that lists an id it holds no packet for
+				continue
+			}
 			switch q := p.(type) {
 			case *packet.Publish:
 				out = append(out, fmt.Sprintf("PUBLISH(%d,%s)", q.ID, string(q.Message.Payload)))
